@@ -63,10 +63,15 @@ class Model:
         set_parents(fn)
         self.fnode = fn
         self.consts = {}
+        mod_ = src.mod(M)
         for s in fn.body:
             if isinstance(s, ast.Assign) and isinstance(s.value, ast.Constant) and isinstance(s.value.value, str) \
                     and isinstance(s.targets[0], ast.Name):
                 self.consts[s.targets[0].id] = s.value.value
+            elif isinstance(s, ast.Assign) and isinstance(s.targets[0], ast.Name) and isinstance(s.value, ast.Attribute) and isinstance(s.value.value, ast.Name) \
+                    and mod_.enum_members(s.value.value.id) is not None and s.value.attr in dict(mod_.enum_members(s.value.value.id)):
+                # a state named by a member of an enum class of the module: its value is the text the messages show
+                self.consts[s.targets[0].id] = dict(mod_.enum_members(s.value.value.id))[s.value.attr]
         loops = [s for s in fn.body if isinstance(s, ast.For)]
         if len(loops) != 1:
             raise AnalysisError('%s: expected one line loop' % self.f.site)
@@ -237,8 +242,14 @@ class Model:
         if isinstance(s, ast.If):
             self.scan_uses(s.test, st, s.lineno)
             res = []
-            for truth, lang in self.cond(s.test, st):
+            outcomes = self.cond(s.test, st)
+            # a test the model cannot decide is followed both ways with the same lines: what such a branch does is what the code MAY
+            # do with a line, not what it does (the transition remembers the test)
+            forked = len(outcomes) == 2 and outcomes[0][1] is outcomes[1][1] and outcomes[0][0] != outcomes[1][0] and 'allow_empty_author' not in norm(s.test)
+            for truth, lang in outcomes:
                 st2 = dict(st, L=lang, effects=list(st['effects']))
+                if forked:
+                    st2['forks'] = tuple(st.get('forks', ())) + (norm(s.test)[:80],)
                 if 'allow_empty_author' in norm(s.test) and st.get('allow_empty') is None and isinstance(s.test, (ast.Name, ast.UnaryOp)):
                     t = s.test
                     neg = isinstance(t, ast.UnaryOp)
@@ -379,7 +390,7 @@ class Model:
             seen[key] = a
             st0 = dict(a, L=self.universe, effects=[], allow_empty=allow_empty)
             for st2, oc in self.run(body, st0):
-                tr = dict(src=key, dst=(st2['state'], st2['old'], st2['nonempty']), L=st2['L'], effects=st2['effects'], outcome=oc)
+                tr = dict(src=key, dst=(st2['state'], st2['old'], st2['nonempty']), L=st2['L'], effects=st2['effects'], outcome=oc, forks=tuple(st2.get('forks', ())))
                 trans.append(tr)
                 if oc not in ('return', 'raise'):
                     work.append(dict(state=st2['state'], old=st2['old'], nonempty=st2['nonempty']))
